@@ -55,7 +55,8 @@ LEVEL_TEXT = (
 LEVEL_NOTE = ("Trusted: vf/ref/pms_atom.py (my transcription of PMS ch.3 + 8.3 and the EAPI feature tables). "
               "No proof of absence; inputs are short (<~60 chars) over a 40-character alphabet.")
 RULE = (
-    "each case = one string tried under 11 EAPI settings (evaluations counts string x EAPI); sources: gen.atoms.atom_case "
+    "each case = one string tried under 11 EAPI settings (evaluations counts string x EAPI); sources: focus (exhaustive small "
+    "families: slot deps of 1-4 '/'-pieces x operator positions, repo and USE shapes, under 3 heads), gen.atoms.atom_case "
     "(valid atom, 60% with 1-2 edits), enum (product of blocker x operator x name x version x slot x repo x use alternatives "
     "incl. invalid ones), fuzz (thorough: hypothesis st.text over the 41-char atom alphabet + random splices of atom fragments). non-trivial = valid under >=1 EAPI and uses an optional part (blocker, operator, "
     "slot, sub-slot, slot operator, repo, USE dep), or acceptance differs between EAPIs, or a mutation whose acceptance "
@@ -410,7 +411,7 @@ ENUM_PARTS = {
     "op": ["", "=", "~", ">=", "<", "=*"],
     "name": ["c/p", "c/p-r1", "c/p-1x", ".c/p", "c/+p", "c/p-", "c/p-1-r1x", "c/1-r1"],
     "ver": ["", "-1", "-1-r1", "-1a_p1-r0", "-1-r", "-1A", "-01.0"],
-    "slot": ["", ":0", ":0/1", ":0=", ":0/1=", ":*", ":=", ":-0", ":.0", ":+0", ":0/", ":", ":0/+1"],
+    "slot": ["", ":0", ":0/1", ":0=", ":0/1=", ":*", ":=", ":-0", ":.0", ":+0", ":0/", ":", ":0/+1", ":0/1/2", ":0/1/2=", ":/0", ":0//1"],
     "repo": ["", "::r", "::-r", "::", "::r.x"],
     "use": ["", "[a]", "[-a,b?]", "[!a=]", "[a(+)]", "[-a(-),b(+)?]", "[]", "[a,]", "[!a]", "[-a?]", "[a(+)", "[a()]"],
 }
@@ -423,21 +424,69 @@ def enum_strings():
         yield b + op.rstrip("*") + name + ver + star + sl + rp + us
 
 
+def focus_strings():
+    """small exhaustive families around the structural boundaries of each optional part, every other
+    part at a default: slot dependencies composed of 1-4 '/'-separated pieces (valid, empty, badly
+    starting) with the slot operators before / after / doubled, repository and USE-dependency shapes,
+    each under a few heads (plain, versioned, blocked) and followed or not by further parts"""
+    heads = ["c/p", "=c/p-1", "!!>=c/p-1-r1"]
+    good, odd = ["0", "a1"], ["", "+1"]
+    slots = []
+    for k in (1, 2, 3, 4):
+        for pieces in itertools.product(good + (odd if k <= 3 else []), repeat=k):
+            if k >= 3 and sum(p in odd for p in pieces) > 1:
+                continue
+            body = "/".join(pieces)
+            for pre, post in (("", ""), ("", "="), ("", "*"), ("=", ""), ("*", ""), ("", "==")):
+                slots.append(":" + pre + body + post)
+    slots += [":=", ":*", ":=/0", ":*/0", ":0=/1", ":0*/1", ":0/=1", ":0/1=x", ":0 /1", ":0/1 "]
+    for h in heads:
+        for sl in slots:
+            for tail in ("", "[a]", "::r"):
+                yield h + sl + tail
+    for h in heads:
+        for rp in ENUM_PARTS["repo"] + ["::r::s", "::r:0", ":0::r::", "::r/s"]:
+            for pre in ("", ":0", ":0/1="):
+                for tail in ("", "[a]"):
+                    yield h + pre + rp + tail
+        for us in ENUM_PARTS["use"] + ["[a][b]", "[a]b", "[[a]]", "[a?,!b=,-c]", "[a(+)=]", "[!a(-)?]", "[a(+)(-)]", "[a?(+)]", "[-a=]", "[!-a?]"]:
+            for pre in ("", ":0", "::r", ":0/1=::r"):
+                yield h + pre + us
+        for sl in (":0[a]:1", "[a]:0", "[a]::r", ":0::r:1"):
+            yield h + sl
+
+
 def plan(tier, seed):
-    tasks = []
+    # order: the small exhaustive family first, then the high-yield random/mutation shards, the big product last;
+    # every task finishes a minimum first chunk even when it is started after the budget guard (see run_task)
+    tasks = [{"task": "focus", "slice": i, "nslices": 3} for i in range(3)]
     if tier == "quick":
-        for i in range(3):
-            tasks.append({"task": "enum", "slice": i, "nslices": 3, "sample": 0.025})
         for i in range(12):
             tasks.append({"task": "gen", "examples": 2500})
+        for i in range(3):
+            tasks.append({"task": "enum", "slice": i, "nslices": 3, "sample": 0.025})
     else:
-        for i in range(16):
-            tasks.append({"task": "enum", "slice": i, "nslices": 16, "sample": 1.0})
         for i in range(16):
             tasks.append({"task": "gen", "examples": 90000})
         for i in range(16):
             tasks.append({"task": "fuzz", "examples": 100000, "text_examples": 20000})
+        for i in range(16):
+            tasks.append({"task": "enum", "slice": i, "nslices": 16, "sample": 1.0})
     return tasks
+
+
+class _FirstChunk:
+    """ctx stand-in for core.hyp_run that ignores the wall-clock guard: used for the minimum first chunk"""
+
+    def __init__(self, ctx):
+        self.seed, self.shard = ctx.seed, ctx.shard
+
+    def out_of_time(self):
+        return False
+
+
+MIN_SEEDS = 8      # x BATCH strings are always judged by a gen/fuzz task
+MIN_ENUM = 512     # strings always judged by an enum task
 
 
 def run_task(ctx, task, **kw):
@@ -456,9 +505,12 @@ def run_task(ctx, task, **kw):
                     break
                 check_string(ctx, t, source="fuzz")
         seeds = []
-        core.hyp_run(ctx, SEEDS, seeds.append, kw["examples"] // BATCH, chunk=1000, seed_salt=3 if task == "fuzz" else 0)
+        salt = 3 if task == "fuzz" else 0
+        nseeds = kw["examples"] // BATCH
+        core.hyp_run(_FirstChunk(ctx), SEEDS, seeds.append, min(MIN_SEEDS, nseeds), chunk=1000, seed_salt=salt + 10)
+        core.hyp_run(ctx, SEEDS, seeds.append, max(0, nseeds - MIN_SEEDS), chunk=1000, seed_salt=salt)
         for i, seed in enumerate(seeds):
-            if ctx.out_of_time():
+            if i >= MIN_SEEDS and ctx.out_of_time():
                 break
             rnd = random.Random(f"{seed}:{ctx.seed}:{ctx.shard}")  # hypothesis repeats small seeds (0, 1, ...) in every shard
             for _ in range(BATCH):
@@ -468,6 +520,12 @@ def run_task(ctx, task, **kw):
                 c = G.build_atom_case(rnd)
                 gen = (c["fields"], c["features"]) if c["fields"] is not None else None
                 check_string(ctx, c["s"], parent=c["parent"], mut=c["mut"], gen=gen, source="gen", parent_features=c["parent_features"])
+    elif task == "focus":
+        fam = list(dict.fromkeys(focus_strings()))
+        for s in fam[kw.get("slice", 0)::kw.get("nslices", 1)]:
+            check_string(ctx, s, source="focus")
+        ctx.note("exhaustive_focus", True)
+        ctx.note("focus_family_size", len(fam) if kw.get("slice", 0) == 0 else 0)
     elif task == "enum":
         rnd = random.Random(ctx.seed * 7919 + kw["slice"])  # only selects which slice of the finite product a quick run visits
         sample = kw["sample"]
@@ -478,7 +536,7 @@ def run_task(ctx, task, **kw):
                 continue
             if not full and rnd.random() >= sample:
                 continue
-            if n % 256 == 0 and ctx.out_of_time():
+            if n >= MIN_ENUM and n % 256 == 0 and ctx.out_of_time():
                 full = False
                 break
             n += 1
